@@ -143,6 +143,9 @@ def readonly_C15(ctx, proof_ok):
             rs = rng.choice([1, 3, 20])
             g = hist.Gen(random.Random(rng.random()), rs, alpha=hist.ALPHA[:8], max_calls=10 if quick else 20, ops_level=False)
             pre = g.history({"rs": rs, "cache": "file"}, [])
+            g.blobs.append({"seed": len(g.blobs) + 1, "len": 900})
+            pre["calls"] += [{"op": "createfile", "name": "/zz-full", "blob": len(g.blobs) - 1}, {"op": "writefile", "name": "/zz-empty", "flags": 0o101, "perm": 0o644, "blob": 0}]
+            g.files.add("/zz-full")
             # phase 2: switch to a read-only instance over the same drive and index, then mix every kind of call
             names = sorted(g.files | g.dirs)[:6] + ["/nope", "/new"]
             ro_calls = []
@@ -176,6 +179,25 @@ def readonly_C15(ctx, proof_ok):
                     continue
                 c["obs"] = ["tapesha", "rows"]
                 ro_calls.append(c)
+            if i < (2 if quick else 8):
+                # exhaustive part: every OpenFile flag combination on a non-empty file, an empty file, a directory and a
+                # missing name, followed by nothing / a write / a truncate / a sync on the handle, then close
+                nonempty = "/zz-full"
+                targets = [t for t in [nonempty, "/zz-empty", next(iter(sorted(g.dirs - {"/"})), None), "/zz-missing"] if t]
+                ro_calls = []
+                for tname in targets:
+                    for acc in (0, 1, 2):
+                        for bits in range(16):
+                            fl = acc | (0o2000 if bits & 1 else 0) | (0o100 if bits & 2 else 0) | (0o200 if bits & 4 else 0) | (0o1000 if bits & 8 else 0)
+                            for act in ("none", "write", "truncate", "sync"):
+                                ro_calls.append({"op": "open", "h": "x", "name": tname, "flags": fl, "perm": 0o644, "obs": ["force", "tapesha", "rows"]})
+                                if act == "write":
+                                    ro_calls.append({"op": "write", "h": "x", "data": "aGVsbG8=", "obs": ["force", "tapesha", "rows"]})
+                                elif act == "truncate":
+                                    ro_calls.append({"op": "truncate", "h": "x", "off": 0, "obs": ["force", "tapesha", "rows"]})
+                                elif act == "sync":
+                                    ro_calls.append({"op": "sync", "h": "x", "obs": ["force", "tapesha", "rows"]})
+                                ro_calls.append({"op": "close", "h": "x", "obs": ["force", "tapesha", "rows"]})
             if not g.blobs:
                 g.blobs.append({"seed": 1, "len": 10})
             pre["blobs"] = g.blobs
